@@ -90,38 +90,154 @@ type Obs struct {
 }
 
 // ---- addresses ----
-// connection n < 4096  <-> client 10.9.(n/16 / 256).(n/16 % 256) : 40000 + n%16
-// connection n >= 4096 <-> client 2001:db8:9::<n/16>              : 40000 + n%16   (IPv6)
-// destination (local) address of connection n: 192.0.2.(1 + n%3)
+// A connection id stands for a client address (coq/C03/Model.v: ip_bytes, zone_of, port_of):
+// family f = n / famBase, host h = (n % famBase) / 16, source port 40000 + n%16
+//
+//	f = 0, n < 4096 : 10.9.(h/256).(h%256) as a 4-byte net.IP (what an AF_INET socket reports)
+//	f = 0, otherwise: 2001:db8:9::<h>
+//	f = 1           : the IPv4 host 10.9.x.y as a 16-byte net.IP, ::ffff:10.9.x.y (what a dual-stack
+//	                  socket reports) - the SAME peer as connection n % famBase for everything that
+//	                  prints or compares the address
+//	f = 2           : fe80::9:<h> with zone eth0 (link-local)
+//	f >= 3          : 2001:db8:9::a09:<h> - an IPv6 host whose low four bytes are those of 10.9.x.y
+//
+// destination (local) address of connection n: 192.0.2.(1 + (n % famBase) % 3)
+const (
+	famBase   = 1 << 20
+	famV4     = 0
+	famMapped = 1
+	famLL     = 2
+	famLow4   = 3
+)
+
+func famOf(n int) int  { return n / famBase }
+func hostOf(n int) int { return (n % famBase) / 16 }
+func isV6(n int) bool  { return famOf(n) >= famLL || (famOf(n) == famV4 && n%famBase >= 4096) }
+
+// the id of host h, port slot in family f
+func idOf(f, h, slot int) int {
+	if f == famV4 && h >= 256 {
+		hx.Fatal("IPv4 pool has 256 hosts")
+	}
+	return f*famBase + 16*h + slot
+}
+
+// idOf with the plain IPv6 family: hosts 256.. of family 0
+func id6(h, slot int) int { return 16*(256+h) + slot }
+
 func remoteIP(n int) net.IP {
-	if n >= 4096 {
+	h := hostOf(n)
+	hi, lo := byte(h>>8), byte(h)
+	switch f := famOf(n); {
+	case f == famV4 && n%famBase < 4096:
+		return net.IP{10, 9, hi, lo}
+	case f == famV4:
 		ip := net.ParseIP("2001:db8:9::")
-		ip[14], ip[15] = byte((n/16)>>8), byte(n/16)
+		ip[14], ip[15] = hi, lo
+		return ip
+	case f == famMapped:
+		return net.IPv4(10, 9, hi, lo) // 16 bytes
+	case f == famLL:
+		ip := net.ParseIP("fe80::9:0")
+		ip[14], ip[15] = hi, lo
+		return ip
+	default:
+		ip := net.ParseIP("2001:db8:9::")
+		ip[12], ip[13], ip[14], ip[15] = 10, 9, hi, lo
 		return ip
 	}
-	return net.IPv4(10, 9, byte((n/16)/256), byte((n/16)%256))
+}
+func remoteZone(n int) string {
+	if famOf(n) == famLL {
+		return "eth0"
+	}
+	return ""
 }
 func remotePort(n int) int   { return 40000 + n%16 }
-func localIPOf(n int) net.IP { return net.IPv4(192, 0, 2, byte(1+n%3)) }
+func localIPOf(n int) net.IP { return net.IPv4(192, 0, 2, byte(1+(n%famBase)%3)) }
+func tcpAddrOf(n int) *net.TCPAddr {
+	return &net.TCPAddr{IP: remoteIP(n), Port: remotePort(n), Zone: remoteZone(n)}
+}
+func udpAddrOf(n int) *net.UDPAddr {
+	return &net.UDPAddr{IP: remoteIP(n), Port: remotePort(n), Zone: remoteZone(n)}
+}
+
+// the canonical id of the peer a connection id denotes: the 4-byte spelling of an IPv4 host
+func canonID(n int) int {
+	if famOf(n) == famMapped && n%famBase < 4096 {
+		return n % famBase
+	}
+	return n
+}
+
+// the (canonical) connection id an address printed in an event belongs to; 9999: none of ours
 func connOfAddr(ip string, port int) int {
 	if port < 40000 || port > 40015 {
 		return 9999
 	}
+	slot := port - 40000
 	q := net.ParseIP(ip)
+	if q == nil {
+		return 9999
+	}
 	if p := q.To4(); p != nil {
-		if p[0] != 10 || p[1] != 9 {
+		if p[0] != 10 || p[1] != 9 || p[2] != 0 {
 			return 9999
 		}
-		return (int(p[2])*256+int(p[3]))*16 + (port - 40000)
+		return idOf(famV4, int(p[3]), slot)
 	}
-	if q == nil || !q[:14].Equal(net.ParseIP("2001:db8:9::")[:14]) {
-		return 9999
+	h := int(q[14])<<8 + int(q[15])
+	for _, f := range []int{famLL, famLow4} {
+		n := idOf(f, h, slot)
+		if remoteIP(n).Equal(q) {
+			return n
+		}
 	}
-	n := (int(q[14])<<8+int(q[15]))*16 + (port - 40000)
-	if n < 4096 {
-		return 9999
+	if n := 16*h + slot; h >= 256 && remoteIP(n).Equal(q) {
+		return n
 	}
-	return n
+	return 9999
+}
+
+// resolveConn: the connection of the scenario an observed (canonical) address belongs to.  Two
+// connections of a scenario may print alike (10.9.0.1 in 4 and in 16 bytes, same port); an
+// address that is the stepping connection's own names the stepping connection.
+func resolveConn(c, stepping int, ids []int) int {
+	if canonID(stepping) == c {
+		return stepping
+	}
+	for _, x := range ids {
+		if canonID(x) == c {
+			return x
+		}
+	}
+	return c
+}
+
+func traceIDs(tr []Step) []int {
+	seen := map[int]bool{}
+	var ids []int
+	for _, s := range tr {
+		if !seen[s.Conn] {
+			seen[s.Conn] = true
+			ids = append(ids, s.Conn)
+		}
+	}
+	sort.Ints(ids)
+	return ids
+}
+
+func resolveStep(st *OStep, stepping int, ids []int, udp bool) {
+	// tcp: a reply is labelled with the connection it arrived on; udp: with the peer it was sent to
+	for k := range st.Replies {
+		if udp && st.Replies[k].Conn != stepping {
+			st.Replies[k].Conn = resolveConn(canonID(st.Replies[k].Conn), stepping, ids)
+		}
+	}
+	for k := range st.Events {
+		st.Events[k].Conn = resolveConn(st.Events[k].Conn, stepping, ids)
+	}
+	sort.SliceStable(st.Events, func(i, j int) bool { return st.Events[i].Conn < st.Events[j].Conn })
 }
 
 // ---- recording channel ----
@@ -264,7 +380,7 @@ func (e *engine) open(id int) {
 	if e.svc == SMTP2 && id%2 == 0 {
 		port, handler = 587, e.s2
 	}
-	sc, cc := lab.Pipe(&net.TCPAddr{IP: localIPOf(id), Port: port}, &net.TCPAddr{IP: remoteIP(id), Port: remotePort(id)})
+	sc, cc := lab.Pipe(&net.TCPAddr{IP: localIPOf(id), Port: port}, tcpAddrOf(id))
 	cn := &cntConn{AConn: sc, eng: e}
 	s := &sess{id: id, sc: cn, cc: cc}
 	e.sess[id] = s
@@ -540,11 +656,12 @@ func runTCP(in *Input) (Obs, string) {
 	e := newEngine(in.Svc)
 	var ob Obs
 	defer e.closeAll()
+	ids := traceIDs(in.Trace)
 	for k := range in.Trace {
 		stp := &in.Trace[k]
 		var p []byte
 		if stp.Kind == "tok" {
-			p = payload(proto(in.Svc), stp.T, stp.A)
+			p = payload(proto(in.Svc), stp.Conn, stp.T, stp.A)
 		}
 		// ftp, smtp: one event per line / message, sent by the connection's pump goroutine
 		events := 0
@@ -558,6 +675,7 @@ func runTCP(in *Input) (Obs, string) {
 		if crash != "" && len(st.Replies) == 0 && len(st.Events) == 0 {
 			return ob, crash
 		}
+		resolveStep(&st, stp.Conn, ids, false)
 		// the connection whose address the step's event carried (for the replay files)
 		if stp.Kind == "tok" {
 			stp.Pick = 0
@@ -596,11 +714,21 @@ func newUDPRunner(svc int) *udpRunner {
 func (u *udpRunner) datagram(k, conn int, p []byte) (OStep, string) {
 	var st OStep
 	var replies [][]byte
+	var repTo []int // the peer each reply was sent to
+	from := udpAddrOf(conn)
 	c := &listener.DummyUDPConn{Buffer: append([]byte(nil), p...),
 		Laddr: &net.UDPAddr{IP: localIPOf(conn), Port: svcPort[u.svc]},
-		Raddr: &net.UDPAddr{IP: remoteIP(conn), Port: remotePort(conn)},
+		Raddr: from,
 		Fn: func(b []byte, addr *net.UDPAddr) (int, error) {
 			replies = append(replies, append([]byte(nil), b...))
+			to := conn
+			if addr == nil || !addr.IP.Equal(from.IP) || addr.Port != from.Port || addr.Zone != from.Zone {
+				to = 9999
+				if addr != nil {
+					to = connOfAddr(addr.IP.String(), addr.Port)
+				}
+			}
+			repTo = append(repTo, to)
 			return len(b), nil
 		}}
 	done := make(chan string, 1)
@@ -622,7 +750,7 @@ func (u *udpRunner) datagram(k, conn int, p []byte) (OStep, string) {
 		return st, fmt.Sprintf("step %d: %s Handle did not return", k, svcName[u.svc])
 	}
 	var all []byte
-	for _, r := range replies {
+	for k, r := range replies {
 		code := canonTFTP(r)
 		if u.svc == MCUDP {
 			code = 9
@@ -630,7 +758,7 @@ func (u *udpRunner) datagram(k, conn int, p []byte) (OStep, string) {
 				code = cs[0]
 			}
 		}
-		st.Replies = append(st.Replies, ORep{Conn: conn, Code: code})
+		st.Replies = append(st.Replies, ORep{Conn: repTo[k], Code: code})
 		all = append(all, r...)
 		all = append(all, '|')
 	}
@@ -650,16 +778,18 @@ func (u *udpRunner) datagram(k, conn int, p []byte) (OStep, string) {
 
 func runUDP(in *Input) (ob Obs, crash string) {
 	u := newUDPRunner(in.Svc)
+	ids := traceIDs(in.Trace)
 	for k := range in.Trace {
 		stp := &in.Trace[k]
 		if stp.Kind != "tok" {
 			ob.Steps = append(ob.Steps, OStep{})
 			continue
 		}
-		st, cr := u.datagram(k, stp.Conn, payload(in.Svc, stp.T, stp.A))
+		st, cr := u.datagram(k, stp.Conn, payload(in.Svc, stp.Conn, stp.T, stp.A))
 		if cr != "" {
 			return ob, cr
 		}
+		resolveStep(&st, stp.Conn, ids, true)
 		ob.Steps = append(ob.Steps, st)
 	}
 	return ob, ""
@@ -695,7 +825,25 @@ func coqCase(id int, in Input, ob Obs) string {
 		}
 		os_ = append(os_, "("+hx.CoqList(rs, "(N*N)")+", "+hx.CoqList(es, "oev")+")")
 	}
-	return fmt.Sprintf("mkCase %d%%N %d%%N %s %s", id, in.Svc, hx.CoqList(tr, "(N*input)"), hx.CoqList(os_, "ostep"))
+	// the real library on the scenario's client addresses: classes of equal net.IP.String() and
+	// of equal RemoteAddr().String()
+	var ks []string
+	ids := traceIDs(in.Trace)
+	ipClass, peerClass := map[string]int{}, map[string]int{}
+	for k, n := range ids {
+		is, ps := remoteIP(n).String(), udpAddrOf(n).String()
+		if ts := tcpAddrOf(n).String(); ts != ps {
+			hx.Fatal("TCP and UDP address of connection %d print differently: %s %s", n, ts, ps)
+		}
+		if _, ok := ipClass[is]; !ok {
+			ipClass[is] = k
+		}
+		if _, ok := peerClass[ps]; !ok {
+			peerClass[ps] = k
+		}
+		ks = append(ks, fmt.Sprintf("(%d%%N,%d%%N,%d%%N)", n, ipClass[is], peerClass[ps]))
+	}
+	return fmt.Sprintf("mkCase %d%%N %d%%N %s %s %s", id, in.Svc, hx.CoqList(tr, "(N*input)"), hx.CoqList(os_, "ostep"), hx.CoqList(ks, "(N*N*N)"))
 }
 
 // the directory tree the ftp service serves: /a/c and /b, nothing else
@@ -765,6 +913,7 @@ type anyInput struct {
 	Cfg     []SEntry `json:"cfg"`
 	Conns   []PConn  `json:"conns"`
 	DelayMs int      `json:"delay_ms"`
+	Pair    string   `json:"pair"`
 	History []SDest  `json:"history"`
 	SProbe  *SDest   `json:"-"`
 }
@@ -800,12 +949,15 @@ func isoPart(o hx.Opts, r *hx.Rand, only *Input) {
 		dist[fmt.Sprintf("steps:%02d-%02d", len(in.Trace)/5*5, len(in.Trace)/5*5+4)]++
 		v6 := false
 		for _, st := range in.Trace {
-			if st.Conn >= 4096 {
+			if isV6(st.Conn) {
 				v6 = true
 			}
 		}
 		if v6 {
 			dist["with-ipv6-clients"]++
+		}
+		for _, rel := range addrRelations(traceIDs(in.Trace)) {
+			dist["client-addresses:"+rel]++
 		}
 		for _, st := range ob.Steps {
 			if st.Skipped {
@@ -848,7 +1000,7 @@ func main() {
 		case in.Calls != nil:
 			limPart(o, r, &LInput{Calls: in.Calls})
 		case in.Probe != nil:
-			diffPart(o, r, &DInput{Svc: in.Svc, Variant: in.Variant, Probe: *in.Probe, Others: in.Others, Order: in.Order, Hist: in.Hist})
+			diffPart(o, r, &DInput{Svc: in.Svc, Variant: in.Variant, Probe: *in.Probe, Others: in.Others, Order: in.Order, Hist: in.Hist, Pair: in.Pair})
 		default:
 			isoPart(o, r, &Input{Svc: in.Svc, Trace: in.Trace})
 		}
